@@ -60,6 +60,71 @@ theorem unknown_peer_creates_nothing (env : Env) (now : Time) (rnd : Rnd) (up : 
 theorem syn_is_stateless (env : Env) (s : ServerStream) (p : Packet) (addr : Addr) : (s.processSyn env p addr).s = s :=
   server_syn_stateless env s p addr
 
+/-! ## whole histories -/
+
+/-- one datagram (or stream chunk) as the transport's receive loop sees it -/
+structure Rx where
+  now : Time
+  rnd : Rnd
+  data : Bytes
+  addr : Addr
+
+/-- the receive loop over a history of reads: each goes through `process_data` (which swallows whatever is raised) -/
+def feed (env : Env) (t : ServerT) (h : List Rx) : ServerT :=
+  h.foldl (fun t x => (t.processData env x.now x.rnd x.data x.addr).t) t
+
+/-- **any history of traffic from other addresses** — any number of reads, valid, malformed or hostile, at any times, with
+    any random draws — leaves a connection exactly as it was (state, timers, windows, queues: the whole `Conn`) -/
+theorem hostile_history_frame (env : Env) (pk : Nat) (k : ClientKey) : ∀ (h : List Rx) (t : ServerT),
+    (∀ x ∈ h, x.addr ≠ k.1) → (feed env t h).conn pk k = t.conn pk k := by
+  intro h
+  induction h with
+  | nil => intro t _; rfl
+  | cons x xs ih =>
+    intro t hall
+    have h1 := ih (t.processData env x.now x.rnd x.data x.addr).t (fun y hy => hall y (List.mem_cons_of_mem _ hy))
+    have h2 := frame_other_addr env x.now x.rnd t x.data x.addr pk k (fun e => hall x List.mem_cons_self e.symm)
+    show (feed env (t.processData env x.now x.rnd x.data x.addr).t xs).conn pk k = _
+    rw [h1, h2]
+
+theorem dispatch_isStream (env : Env) (now : Time) (rnd : Rnd) (addr : Addr) : ∀ (ps : List Packet) (t : ServerT),
+    (ServerT.dispatch env now rnd addr ps t).t.isStream = t.isStream := by
+  intro ps
+  induction ps with
+  | nil => intro t; rfl
+  | cons p ps ih =>
+    intro t
+    simp only [ServerT.dispatch]
+    split
+    · rfl
+    · split
+      · rfl
+      · simp only []; rw [ih]
+
+theorem processData_isStream (env : Env) (now : Time) (rnd : Rnd) (t : ServerT) (data : Bytes) (addr : Addr) :
+    (t.processData env now rnd data addr).t.isStream = t.isStream := by
+  unfold ServerT.processData
+  simp only []
+  split
+  · cases t.isStream <;> rfl
+  · rw [dispatch_isStream]; cases t.isStream <;> rfl
+
+/-- … and, on stream transports, its reassembly buffer -/
+theorem hostile_history_frame_buffers (env : Env) (other : Addr) : ∀ (h : List Rx) (t : ServerT),
+    t.isStream = true → (∀ x ∈ h, x.addr ≠ other) →
+    bufLookup other (feed env t h).liteBufs = bufLookup other t.liteBufs ∧ (feed env t h).isStream = true := by
+  intro h
+  induction h with
+  | nil => intro t hs _; exact ⟨rfl, hs⟩
+  | cons x xs ih =>
+    intro t hs hall
+    have hs' : (t.processData env x.now x.rnd x.data x.addr).t.isStream = true := by
+      rw [processData_isStream]; exact hs
+    have h1 := ih (t.processData env x.now x.rnd x.data x.addr).t hs' (fun y hy => hall y (List.mem_cons_of_mem _ hy))
+    have h2 := frame_other_stream env x.now x.rnd t x.data x.addr other hs (fun e => hall x List.mem_cons_self e.symm)
+    show bufLookup other (feed env (t.processData env x.now x.rnd x.data x.addr).t xs).liteBufs = _ ∧ _
+    exact ⟨by rw [h1.1, h2], h1.2⟩
+
 /-! non-vacuity -/
 example : ServerT.conn { streams := [(portKey 1 10, { key := none, supFuncs := 0, maxSub := 0, minorVer := 0, addr := ("s", 1), port := 1, type := 10 })] }
     (portKey 1 10) (("a", 2), 15, 10) = none := by decide
